@@ -175,6 +175,10 @@ def run_case(case, ctx):
             facts = fam_sent
         is_cert = '-cert-v0' in alg
         if not (alg in RSA or is_cert):
+            if r['ca_size'] is not None or r['ca_type'] is not None:
+                out.append(viol('C11 CA details reported for a host key that is not a certificate', 'alg=%s reported=%r key list=%r' % (alg, {k: r[k] for k in ('size', 'ca_size', 'ca_type')}, advertised)))
+            if any('CA key' in t for _, t in r['notes']):
+                out.append(viol('C11 CA note on a host key that is not a certificate', 'alg=%s notes=%r' % (alg, r['notes'])))
             continue
         if facts is None:
             if r['size'] is not None or r['ca_size'] is not None:
@@ -187,6 +191,8 @@ def run_case(case, ctx):
             if size_notes(r['notes']):
                 out.append(viol('C11 size note without a size', 'alg=%s notes=%r' % (alg, r['notes'])))
             continue
+        if not is_cert and (r['ca_size'] is not None or r['ca_type'] is not None):
+            out.append(viol('C11 CA details reported for a host key that is not a certificate', 'alg=%s reported=%r key list=%r' % (alg, {k: r[k] for k in ('size', 'ca_size', 'ca_type')}, advertised)))
         shows_size = (alg in RSA) or (not isjson) or alg.startswith('ssh-rsa-cert-v0')
         if shows_size and r['size'] != facts['bits']:
             out.append(viol('C11 reported %s size differs from the presented key' % ('certificate' if is_cert else 'RSA'),
